@@ -91,6 +91,17 @@ def evaluate(e, dtype):
                                     ("norm() [autograd branch]", n_ad, math.sqrt(exact))):
                 if not abs(got - want) <= tol * max(1.0, abs(want)):
                     fails.append("%s = %r, exact %r" % (name, got, want))
+            # the hypotheses / conclusion of C07_norm2_last_core on the implementation's own gauge: after lr_orthogonal every core but the last has an
+            # orthonormal left unfolding, and the norm of the last core is the norm of the tensor
+            from torchtt._decomposition import lr_orthogonal
+            lc, _R = lr_orthogonal(x.cores, x.R, x.is_ttm) if len(x.cores) >= 2 else ([c for c in x.cores], None)     # (an internal routine: not defined for a single core)
+            for k_, c_ in enumerate(lc[:-1]):
+                U_ = c_.reshape(-1, c_.shape[-1])
+                if float((U_.conj().T @ U_ - torch.eye(U_.shape[1], dtype=U_.dtype)).abs().max()) > 100 * tol:
+                    fails.append("hypothesis left_orth: core %d of lr_orthogonal's output does not have an orthonormal left unfolding" % k_); break
+            else:
+                if exact > 0 and abs(float(lc[-1].abs().pow(2).sum()) - exact) > 100 * tol * max(1.0, exact):
+                    fails.append("the squared norm of the last core after lr_orthogonal differs from the squared norm of the tensor")
         except Exception as ex:
             fails.append("norm() raises %s" % type(ex).__name__)
     return oi, fails
@@ -98,7 +109,8 @@ def evaluate(e, dtype):
 def nontrivial(e, cat):
     return any(isinstance(a, (Lit3, Lit4)) and any(c.shape[-1] > 1 for c in a.cores[:-1]) for a in e.args)
 
-RULE = ("random reductions: norm^2 (Gram/autograd branch exact, QR branch and sqrt within 1e-12), dot (full and along first/last/adjacent/scattered/all mode "
+RULE = ("random reductions: norm^2 (Gram/autograd branch exact, QR branch and sqrt within 1e-12; the gauge left by lr_orthogonal is checked to have orthonormal left unfoldings "
+        "and a last core carrying the norm - hypotheses and conclusion of C07_norm2_last_core), dot (full and along first/last/adjacent/scattered/all mode "
         "subsets), sum (all / every kind of subset), TT-matrix norm and sums, bilinear forms; order 1..5, singleton modes, rank profiles up to 3, zero "
         "tensors, float64/complex128 (Gaussian-integer cores so conjugation matters)/float32; non-trivial = interior rank > 1; distinct = (structure, dtype)")
 
